@@ -192,6 +192,98 @@ def s_open_state(vc):
     vc.ensure("server_connection_started", not isnone(ss.timestamp_start))
 
 
+def _dict_items(vc, d):
+    return list(d.items) if vc.mode == "sym" else list(d.items())
+
+
+@scenario("close_stream_layer.closes_one_half_and_keeps_the_pairing", functions=[R + ".close_stream_layer"], extra_inline_roots=AIOQUIC)
+def s_close_half(vc):
+    """Closing the incoming half of one side of a stream: that virtual connection loses CAN_READ and nothing else, the stream
+    layer sees one ConnectionClosed (once per side), and the stream stays registered under both of its ids whatever the states
+    are afterwards - 'exactly one server stream per client stream' must survive late events (a RESET_STREAM after a FIN, a
+    peer's data after our side has finished): a stream that is forgotten is paired a second time with a new upstream stream."""
+    from mitmproxy.connection import ConnectionState as S
+    client = vc.case("closing_side", ["client", "server"]) == "client"
+    already = vc.case("already_ended", [False, True])
+    cid = vc.sym_int("cid", lo=0)
+    sid = vc.sym_int("sid", lo=0)
+    cstate, sstate = conn_state(vc, "cstate"), conn_state(vc, "sstate")
+    raw, child, qc, qs, sc, ss, ids = mk_raw(vc, cid, sid, cstate, sstate)
+    conn, other, st, ost = (sc, ss, cstate, sstate) if client else (ss, sc, sstate, cstate)
+    if already:
+        conn.timestamp_end = 5.0
+    seen = []
+    vc.summary("mitmproxy.proxy.layer:Layer.handle_event", lambda v, self_, ev: seen.append((self_, ev)) or v.gen([]))
+    vc.summary("time:time", lambda v: v.lift(9.0))
+    out = vc.call(R + ".close_stream_layer", raw, child, client)
+    vc.ensure("no_exception", out.ok)
+    if not out.ok:
+        return
+    vc.ensure("incoming_half_closed", And(Not(flag_has(conn.state, S.CAN_READ)), Iff(flag_has(conn.state, S.CAN_WRITE), flag_has(st, S.CAN_WRITE))))
+    vc.ensure("other_side_untouched", vc.eq(other.state, ost))
+    if already:
+        vc.ensure("closed_event_only_once", len(seen) == 0)
+    else:
+        vc.ensure("child_told_once", len(seen) == 1 and seen[0][0] is child and is_cmd(seen[0][1], "ConnectionClosed") and seen[0][1].connection is conn)
+    ci, si = _dict_items(vc, raw.client_stream_ids), _dict_items(vc, raw.server_stream_ids)
+    vc.ensure("still_registered_under_client_id", len(ci) == 1 and ci[0][1] is child and ci[0][0] == cid)
+    vc.ensure("still_registered_under_server_id", len(si) == 1 and si[0][1] is child and si[0][0] == sid)
+    vc.ensure("ids_unchanged", And(child._client_stream_id == cid, child._server_stream_id == sid))
+
+
+@scenario("handle_event.connection_closed.closes_the_side_that_closed", functions=[R + "._handle_event"], extra_inline_roots=AIOQUIC)
+def s_conn_closed(vc):
+    """When one of the two QUIC connections closes, every stream's virtual connection on *that* side (and only that side)
+    becomes unwritable and has its incoming half closed, so that nothing a stream layer sends afterwards is translated
+    into a command on the closed QUIC connection; the other side of every stream is left as it was."""
+    from mitmproxy.connection import ConnectionState as S
+    from_client = vc.case("closed", ["client", "server"]) == "client"
+    other_open = vc.case("other_connection_open", [True, False])
+    cid = vc.sym_int("cid", lo=0)
+    sid = vc.sym_int("sid", lo=0)
+    cstate, sstate = conn_state(vc, "cstate"), conn_state(vc, "sstate")
+    raw, child, qc, qs, sc, ss, ids = mk_raw(vc, cid, sid, cstate, sstate)
+    (qs if from_client else qc).state = S.OPEN if other_open else S.CLOSED
+    dg = vc.new("props.C30:DatagramStub")
+    raw.datagram_layer = dg
+    raw.connections = vc.dict([(sc, child), (ss, child), (qc, dg), (qs, dg)])
+    calls = []
+
+    def closes(v, self_, stream_layer, client):
+        calls.append((stream_layer, client))
+        return v.gen([])
+
+    vc.summary(R + ".close_stream_layer", closes)
+    vc.summary("mitmproxy.proxy.layer:Layer.handle_event", lambda v, self_, ev: v.gen([]))
+    vc.summary("props.C30:_dg_point", lambda v, self_, ev: v.gen([]))
+    ev = vc.new("mitmproxy.proxy.layers.quic._events:QuicConnectionClosed", connection=qc if from_client else qs, error_code=0, frame_type=None, reason_phrase="bye")
+    out = vc.call(R + "._handle_event", raw, ev)
+    vc.ensure("no_exception", out.ok)
+    if not out.ok:
+        return
+    mine, theirs, st, ost = (sc, ss, cstate, sstate) if from_client else (ss, sc, sstate, cstate)
+    vc.ensure("closed_side_unwritable", Not(flag_has(mine.state, S.CAN_WRITE)))
+    vc.ensure("closed_side_read_flag_left_to_close_stream_layer", Iff(flag_has(mine.state, S.CAN_READ), flag_has(st, S.CAN_READ)))
+    vc.ensure("other_side_untouched", vc.eq(theirs.state, ost))
+    vc.ensure("incoming_half_of_the_closed_side_closed_once", len(calls) == 1 and calls[0][0] is child and vc.eq(calls[0][1], from_client))
+    closes_ = [c for c in out.trace if is_cmd(c, "CloseQuicConnection")]
+    if other_open:
+        vc.ensure("close_relayed_to_the_other_connection", len(closes_) == 1 and closes_[0].connection is (qs if from_client else qc))
+    else:
+        vc.ensure("no_close_on_a_closed_connection", len(closes_) == 0)
+
+
+class DatagramStub:
+    """the datagram layer of RawQuicLayer (a UDPLayer in the real stack): abstracted, its commands are scripted"""
+
+    def handle_event(self, event):
+        return _dg_point(self, event)
+
+
+def _dg_point(self, event):
+    raise NotImplementedError
+
+
 def _cls(ref):
     from pyvc.vc import resolve_ref
     return resolve_ref(ref)[2]
